@@ -587,10 +587,11 @@ func dnsItems() []item {
 		b.nameHop(b.scheme(), "dns-empty", nil, nil)
 	})
 	// rebinding: the answer changes between the first and a later query
-	for _, k := range []string{"pub-then-priv", "pub-then-loopback", "pub-pub-priv", "priv-then-pub", "pub-then-mapped", "pub-then-mixed"} {
+	for _, k := range []string{"pub-then-priv", "pub-then-loopback", "pub-pub-priv", "priv-then-pub", "pub-then-mapped", "pub-then-mixed", "multi-pub-then-priv", "multi-pub-then-loopback", "multi-pub-then-multi-priv"} {
 		k := k
 		add("rebinding-"+k, func(b *builder) {
 			p := pubIP(b.r)
+			routed := []string{p}
 			var ans []netmon.Answer
 			switch k {
 			case "pub-then-priv":
@@ -605,8 +606,22 @@ func dnsItems() []item {
 				ans = []netmon.Answer{{IPs: []string{p}}, {IPs: []string{badMapped(b.r)}}}
 			case "pub-then-mixed":
 				ans = []netmon.Answer{{IPs: []string{p}}, {IPs: []string{badIP(b.r), p}}}
+			// several public addresses at validation time (a client may treat multi-address hosts
+			// differently, e.g. hand the NAME to the dialer for address racing), hostile afterwards
+			case "multi-pub-then-priv":
+				p2 := pubIP(b.r)
+				routed = []string{p, p2}
+				ans = []netmon.Answer{{IPs: []string{p, p2}}, {IPs: []string{badIP(b.r)}}}
+			case "multi-pub-then-loopback":
+				p2, p3 := pubIP(b.r), pubIP(b.r)
+				routed = []string{p, p2, p3}
+				ans = []netmon.Answer{{IPs: []string{p, p2, p3}}, {IPs: []string{"127.0.0.1"}}}
+			case "multi-pub-then-multi-priv":
+				p2 := pubIP(b.r)
+				routed = []string{p, p2}
+				ans = []netmon.Answer{{IPs: []string{p, p2}}, {IPs: []string{badIP(b.r), badIP(b.r)}}}
 			}
-			b.nameHop(b.scheme(), "dns-rebinding", ans, []string{p})
+			b.nameHop(b.scheme(), "dns-rebinding", ans, routed)
 			b.sc.ExpectFetch = k != "priv-then-pub"
 		})
 	}
@@ -849,6 +864,12 @@ func redirectItems() []item {
 		b.nameHop("http", "dns-rebinding", []netmon.Answer{{IPs: []string{p}}, {IPs: []string{badIP(b.r)}}}, []string{p})
 		b.sc.ExpectFetch = true
 	})
+	add("pub>rebinding-multi", func(b *builder) {
+		lead(b, 1)
+		p, p2 := pubIP(b.r), pubIP(b.r)
+		b.nameHop("http", "dns-rebinding", []netmon.Answer{{IPs: []string{p, p2}}, {IPs: []string{badIP(b.r)}}}, []string{p, p2})
+		b.sc.ExpectFetch = true
+	})
 	add("pub>mixed-dns-down", func(b *builder) {
 		lead(b, 1)
 		b.nameHop("http", "dns-mixed", []netmon.Answer{{IPs: []string{pubV4(b.r), badIP(b.r)}}}, nil)
@@ -933,12 +954,12 @@ var coreLabels = func() map[string]bool {
 		"url/literal-::ffff:127.0.0.1", "url/literal-169.254.169.254", "url/literal-fe80::1%eth0", "url/literal-0.0.0.0",
 		"url/numeric-2130706433", "url/edge-172.32.0.1", "url/scheme-HTTP-upper", "url/host-localhost",
 		"dns/all-public-v4+v6", "dns/all-private-v4", "dns/all-private-mapped", "dns/mixed-pub-first-down", "dns/mixed-priv-first",
-		"dns/mixed-priv-last-of-4-down", "dns/empty-noerror", "dns/rebinding-pub-then-priv", "dns/rebinding-pub-pub-priv",
+		"dns/mixed-priv-last-of-4-down", "dns/empty-noerror", "dns/rebinding-pub-then-priv", "dns/rebinding-pub-pub-priv", "dns/rebinding-multi-pub-then-priv", "dns/rebinding-multi-pub-then-loopback",
 		"allow/listed-exact", "allow/listed-url-upper+dot", "allow/listed-entry-mixed+url-mixed", "allow/lookalike-suffix-appended",
 		"allow/lookalike-prefix-glued", "allow/lookalike-subdomain", "allow/lookalike-same-ip-other-name",
 		"redirect/pub*1>private-name", "redirect/pub>literal-loopback-v4", "redirect/pub>literal-mapped", "redirect/pub>literal-metadata",
 		"redirect/pub>userinfo-user:pw@", "redirect/pub>userinfo-same-host", "redirect/pub>scheme-ftp", "redirect/pub>pub-302",
-		"redirect/pub*11>private-name", "redirect/listed>private-not-listed", "redirect/listed>lookalike", "redirect/pub>rebinding",
+		"redirect/pub*11>private-name", "redirect/listed>private-not-listed", "redirect/listed>lookalike", "redirect/pub>rebinding", "redirect/pub>rebinding-multi",
 		"redirect/pub>mixed-dns-down",
 	} {
 		m[l] = true
